@@ -81,8 +81,8 @@ pub fn check_validity_for_reuse_statistic(
     if parent_interval_ms % interval_ms != 0 {
         return Err(Error::msg(GLOBAL_STATISTIC_NON_REUSABLE_ERROR));
     }
-    // SlidingWindowMetric's BucketLengthInMs is finer than BucketLeapArray's BucketLengthInMs
-    if bucket_length_in_ms < parent_bucket_length_in_ms {
+    // BucketLeapArray's BucketLengthInMs is not divisible by SlidingWindowMetric's BucketLengthInMs
+    if bucket_length_in_ms % parent_bucket_length_in_ms != 0 {
         return Err(Error::msg(GLOBAL_STATISTIC_NON_REUSABLE_ERROR));
     }
     Ok(())
